@@ -32,7 +32,7 @@ import c12_nasfloat  # noqa: E402
 
 ID = "C12"
 LEAN_MODULES = ["PyYetiVerif.Props.C12", "PyYetiVerif.Props.C12Multi", "PyYetiVerif.Props.C12Acc",
-                "PyYetiVerif.Props.C12Best", "PyYetiVerif.Audit.C12"]
+                "PyYetiVerif.Props.C12Best", "PyYetiVerif.Props.C12Foreign", "PyYetiVerif.Audit.C12"]
 AUDIT_FILE = "PyYetiVerif/Audit/C12.lean"
 THEOREMS = [
     "PyYetiVerif.C12." + n
@@ -47,7 +47,9 @@ THEOREMS = [
         "wtcard_type_dispatch "
         "format_float_accuracy format_bound_pieces mixed_branch_picks mixed_branch_reads_as_sci "
         "fixed_branch_best_precision last_branches_best_precision sci_best_precision sci_slack_attained "
-        "unnormalised_mantissa_is_closer mixed_branch_picks_neg kept_comments_complete rdcards_foreign_block tables_best_ok format_float_best_precision"
+        "unnormalised_mantissa_is_closer mixed_branch_picks_neg kept_comments_complete rdcards_foreign_block tables_best_ok format_float_best_precision "
+        "written_card_lines_no_match rdcards_foreign_written rdcards_foreign_boundary rdcards_written_cards "
+        "rdcards_assembled_written"
     ).split()
 ]
 TRUSTED = [
@@ -90,7 +92,9 @@ RULE = (
     "expression with return_var list/array/dict, dtype float/int, keep_name, keep_comments, blank default/None/"
     "number/string, no_data_return; a case is one (file, options) pair compared on the canonical text of the result "
     "or the exception kind.  str.expandtabs on random strings with tabs, \\n, \\r (stream tabs); fsearch on random "
-    "files (stream fsearch)"
+    "files (stream fsearch).  stream foreign-cards: files of 2..5 written cards (three writers) renamed within a "
+    "family of prefix-related and unrelated names, read by one of the names in either case; exact comparison with "
+    "the model, plus the literals GRID/GRIDX, GRID/CORD2R of the Lean example"
 )
 ASSUMPTIONS = [
     "string fields are Nastran names (letter first, alphanumeric, at most the field width) that nas_sscanf does "
@@ -121,7 +125,8 @@ PARTIAL = (
     "the formatters are best for the exponent they print, not among all strings); the per-branch theorems of the "
     "first round; cards: card_roundtrip_small / _large / _comma, card_fixed_comma_agree; the reader with all "
     "options: rdcards_multi (any matcher, blank, return_var, dtype, keep_name; comments not kept: a file of block "
-    "texts is read block by block), rdcards_multi_files, written_cards_are_blocks, rdcards_assembled, "
+    "texts is read block by block), rdcards_multi_files, written_cards_are_blocks, rdcards_assembled, rdcards_assembled_written (written cards of other names in "
+    "between, no foreign-block hypothesis), rdcards_written_cards, rdcards_foreign_written, rdcards_foreign_boundary, "
     "rdcards_general_is_rdcards, array_shape (rows x longest card, padded with blank), dict_keys_and_last, "
     "expandtabs_cells / tab_line_reads_as_fixed (tab stops at 8), fsearch_first_line, wtcard_type_dispatch.  "
     "Still partial: (1) the choice of the NEGATIVE mixed branch is characterised (mixed_branch_picks_neg) only "
@@ -134,10 +139,10 @@ PARTIAL = (
     "the competitor class), and for the fixed alternative of a mixed branch it is only known that it reads back "
     "as the scientific field does (mixed_branch_reads_as_sci, positive chain); "
     "(3) a comma-form writer does not exist in pyyeti: card_roundtrip_comma is about the specification text "
-    "commaText; (4) in rdcards_assembled the foreign blocks between the cards must contribute no card of the "
-    "name: rdcards_foreign_block proves that for every block none of whose lines starts with the name, but that "
-    "the lines of a written card of ANOTHER name are such a block is not proved in general (tied by "
-    "correspondence); for keep_comments=True "
+    "commaText; (4) foreign written cards are now proved (rdcards_foreign_written / rdcards_written_cards / "
+    "rdcards_assembled_written: a card written under another name is not seen iff name.lower() is not a prefix "
+    "of its padded 8-column name field - rdcards_foreign_boundary: GRID does read GRIDX and GRID*); foreign "
+    "lines that are not written cards still need the hypothesis of rdcards_foreign_block; for keep_comments=True "
     "kept_comments_complete proves that every comment line is kept once and in order, the exact place of a "
     "comment among the cards (in front of the next matching card) is modelled and tied only; regex matching "
     "carries no theorem beyond rdcards_multi's 'any matcher'; (5) numpy.float32 arguments equal to the float32 rounding of a branch "
@@ -150,7 +155,8 @@ MANIFEST = {
                   "bound), best precision per branch with the sharp slack and the counterexample for un-normalised "
                   "mantissas, the positive mixed branch's choice; cards in 8/16/comma forms with any number of lines; "
                   "the generic reader with all options on multi-card files (block-by-block reading, array shapes, "
-                  "dictionary keys, kept comments, tabs, fsearch).  Tied by exact correspondence only: the choice of the "
+                  "dictionary keys, kept comments, tabs, fsearch); a written card of another name is invisible to the "
+                  "reader exactly when name.lower() is not a prefix of its padded name field.  Tied by exact correspondence only: the choice of the "
                   "negative mixed branch in the decade 1e-10..1e-9 of format_float16, the place of kept comments, regular-expression names (matcher verdicts from Python's re), NumPy's "
                   "dtype conversions, numpy.float32 arguments",
     "technique": "Lean 4 model + ast translator (NasFloatTables) + differential correspondence",
@@ -1233,6 +1239,75 @@ def _corr_extension(ctx, bulk, tabs, vals, ok, floats):
     if inputs:
         ctx.sample({"rdcards": {k: v for k, v in inputs[0].items() if k != "parts"}, "text": _parts_text(inputs[0]["parts"])[:300],
                     "result": want[0][:200]})
+    # --- stream `foreign-cards`: files made of written cards of several names only (rdcards_written_cards,
+    # rdcards_foreign_written, rdcards_foreign_boundary): a card is seen iff name.lower() is a prefix of its padded
+    # name field, its `+` / `*` continuation lines never are
+    req, want, inputs = [], [], []
+
+    def _wr(w, nm, fields):
+        c = {"writer": w, "name": nm, "fields": fields}
+        return c, _write(bulk, c)
+
+    fixed_files = [
+        ([_wr("wtcard8", "GRIDX", [["i", 1], ["i", 2]])], "GRID", [["GRIDX", 1, 2]]),
+        ([_wr("wtcard8", "CORD2R", [["i", 1], ["i", 2]])], "GRID", _NODATA),
+        ([_wr("wtcard8", "GRID", [["i", 1]]), _wr("wtcard8", "CORD2R", [["i", k] for k in range(20)]),
+          _wr("wtcard16", "PBAR*", [["i", k] for k in range(11)]), _wr("wtcard16d", "GRIDX*", [["i", 5]]),
+          _wr("wtcard16", "GRID*", [["i", 3]])], "grid", None),
+    ]
+    for _ in range(ctx.pick(400, 4000)):
+        base = _rand_name(rng, 5, False)
+        fam = [base, base + "X", base + "XY", base[: max(1, len(base) - 1)], _rand_name(rng, 7, False),
+               _rand_name(rng, 7, False)]
+        cs = []
+        for _k in range(rng.randint(2, 5)):
+            c, t = ok[rng.randrange(len(ok))]
+            nm = rng.choice(fam)[:7]
+            c = dict(c, name=nm + ("*" if c["writer"] != "wtcard8" else ""))
+            t = _write(bulk, c)
+            if not (t.startswith("exc:") or t == "value-error"):
+                cs.append((c, t))
+        if not cs:
+            continue
+        nm = rng.choice(fam + [cs[0][0]["name"]])
+        if rng.random() < 0.3:
+            nm = nm.lower()
+        fixed_files.append((cs, nm, None))
+    for cs, nm, lit in fixed_files:
+        text = "".join(t for _, t in cs)
+        keep = 1 if lit is not None else rng.randint(0, 1)
+        q = _rdx_req(text, nm, "list", "f", keep, 0, _DEFAULT, False)
+        w = _rdx_real(bulk, text, nm, "list", "f", keep, 0, _DEFAULT, False)
+        inp = {"kind": "rdx", "parts": [{"t": "card", "card": c, "form": "fixed", "text": t} for c, t in cs],
+               "name": nm, "return_var": "list", "dtype": "f", "keep_name": keep, "keep_comments": 0, "blank": None,
+               "regex": False, "default_blank": True}
+        req.append(q)
+        want.append(w)
+        inputs.append(inp)
+        low = nm.lower()
+        # (classified by the input, not by what the code returns: a broken reader must disagree, not starve a branch)
+        ctx.case(("foreign", q), branch="foreign-cards:" + (
+            "some-read" if any(c["name"].ljust(8).lower().startswith(low) for c, _ in cs) else "none-read"))
+        for c, t in cs:
+            hit = c["name"].ljust(8).lower().startswith(low)
+            lines = t.count("\n")
+            if not hit:
+                ctx.count("foreign-cards:skipped")
+                if lines > 1:
+                    ctx.count("foreign-cards:skipped-with-%s-lines" % ("plus" if c["writer"] == "wtcard8" else "star"))
+            elif c["name"].rstrip("*").lower() != low.rstrip("*"):
+                ctx.count("foreign-cards:picked-up-by-prefix")
+            else:
+                ctx.count("foreign-cards:own")
+        if lit is not None and w != _canon_result(lit):
+            ctx.disagree("foreign-cards", inp, w, "the literal of the Lean example: " + _canon_result(lit))
+    rep = _ask(ctx, req)
+    for q, w, r, inp in zip(req, want, rep, inputs):
+        if w != r:
+            ctx.disagree("foreign-cards", inp, w, r)
+    ctx.require_branches(["foreign-cards:none-read", "foreign-cards:some-read", "foreign-cards:skipped",
+                          "foreign-cards:skipped-with-plus-lines", "foreign-cards:skipped-with-star-lines",
+                          "foreign-cards:picked-up-by-prefix", "foreign-cards:own"])
     ctx.extra["extension_streams_seconds"] = round(_time.time() - t_ext, 1)
     ctx.require_branches(["rdcards-options:list:L", "rdcards-options:list:n", "rdcards-options:array:A",
                           "rdcards-options:array:n", "rdcards-options:array:exc", "rdcards-options:dict:D",
@@ -1505,6 +1580,13 @@ def _file_failures(bulk, parts, name):
         out.append((FAM_MULTI, "rdcards raises on a file assembled from written cards", inp, repr(e), "the cards"))
         return out
     _stat("files-read-%d-matching-cards" % min(len(exp), 3))
+    for p_ in parts:
+        # rdcards_written_cards: a written card is seen iff name.lower() is a prefix of its padded name field
+        if p_["t"] == "card" and p_["form"] == "fixed":
+            if not p_["text"].lower().startswith(low):
+                _stat("files-foreign-written-card-not-read")
+            elif p_["card"]["name"].rstrip("*").lower() != low.rstrip("*"):
+                _stat("files-written-card-read-by-a-prefix-of-its-name")
     if not exp:
         if got is not _NODATA:
             out.append((FAM_NODATA, "no card of that name, but rdcards does not return no_data_return", inp,
@@ -1704,6 +1786,20 @@ def _search_extension(ctx, bulk, floats):
         for nm in {_pick_name(rng, parts), _pick_name(rng, parts)}:
             _report(ctx, _file_failures(bulk, parts, nm))
             ctx.count("oracle-files")
+    # files made of written cards of several (prefix-related and unrelated) names only, read by each of the names
+    for _ in range(ctx.pick(200, 2000)):
+        base = _rand_name(rng, 5, False)
+        fam = [base, base + "X", base[: max(1, len(base) - 1)], _rand_name(rng, 7, False), _rand_name(rng, 7, False)]
+        parts = []
+        for _k in range(rng.randint(2, 5)):
+            c, t = pool[rng.randrange(len(pool))]
+            c = dict(c, name=rng.choice(fam)[:7] + ("*" if c["writer"] != "wtcard8" else ""))
+            t = _write(bulk, c)
+            if not (t.startswith("exc:") or t == "value-error"):
+                parts.append({"t": "card", "card": c, "form": "fixed", "text": t})
+        for nm in {rng.choice(fam), rng.choice(fam).lower()}:
+            _report(ctx, _file_failures(bulk, parts, nm))
+            ctx.count("oracle-files-of-written-cards")
     ctx.extra["oracle_extension"] = dict(_ORACLE_STATS)
 
 
